@@ -309,7 +309,7 @@ func runC11(c *fw.Ctx) {
 		clocks := Clocks(ld.Archs, false, []string{"mid"})
 		now := clocks[1]
 		rmax, r0 := ld.Archs[len(ld.Archs)-1].Ret(), ld.Archs[0].Ret()
-		wins := [][2]int64{{0, 0}, {now - 3, now - 1}, {now - r0 - 2, 0}, {now - rmax - 3, now - rmax + 2}}
+		wins := [][2]int64{{0, 0}, {now - 3, now - 1}, {now - r0 - 2, 0}, {now - rmax - 3, now - rmax + 2}, {now - r0 - 3, now - r0 - 1}}
 		srcs := allCodes(ns, pl.base)
 		dsts := allCodes(ns, 2)
 		if len(dsts) > 32 {
